@@ -5,7 +5,7 @@ use crate::run::{execute, Budget, ExecOpts, Violation};
 use crate::spec::*;
 
 /// Budgets of a candidate come from its own fault-free reference run, by the same rule as in the
-/// explorers (reference calls + 1000, reference polls + 64); the reference run here may use up
+/// explorers (reference calls + 1000, reference polls + reference calls + 64); the reference run here may use up
 /// to 60 000 calls, whereas the quick explorers stop theirs at 5 000 (a candidate's budgets
 /// travel in the replay file, so the replay is judged exactly as the minimiser judged it).
 pub fn budgets_for(spec: &RunSpec) -> Vec<Budget> {
@@ -30,7 +30,7 @@ pub fn budgets_for(spec: &RunSpec) -> Vec<Budget> {
                 &ExecOpts { record: false, keep_tail: 0, rec_polls: false, check_isolation: false, rec_items: false },
             );
             let s = &r.insts[0];
-            Budget { max_calls: s.calls + 1000, max_polls: s.polls + 64 }
+            Budget { max_calls: s.calls + 1000, max_polls: s.polls + s.calls + 64 }
         })
         .collect()
 }
